@@ -376,6 +376,14 @@ class Check:
 
 
 def decide(chk, tier, seed):
+    """Self-tests against a mutated tree share one private Coq copy: they run one at a time."""
+    if ALT:
+        with Lock("alt-run"):
+            return _decide(chk, tier, seed)
+    return _decide(chk, tier, seed)
+
+
+def _decide(chk, tier, seed):
     t0 = time.time()
     prop = chk.prop
     broken = []        # broken obligations: list of (name, detail)
